@@ -10,11 +10,12 @@ from mc.runner import Result
 ID = "C04"
 LEVEL = "model_checking"
 
-MENU_PAIR_Q = [(None, 0.0), (U, 0.0), (None, 4 * U), (1.5 * U, 2 * U)]
+# MRTS >= 6U is needed for the interpolation to matter on a lattice of spacing U
+MENU_PAIR_Q = [(None, 0.0), (U, 0.0), (None, 6 * U), (1.5 * U, 8 * U)]
 MENU_PAIR_T = [(mt, m) for mt in (None, 0.0, 0.5 * U, U, 2 * U, 3 * U)
-               for m in (0.0, 2 * U, 4 * U, 6 * U, 40 * U)]
-MENU_LIST_Q = [(None, 0.0), (U, 2 * U)]
-MENU_LIST_T = [(None, 0.0), (U, 0.0), (None, 4 * U), (1.5 * U, 2 * U)]
+               for m in (0.0, 4 * U, 6 * U, 8 * U, 12 * U, 40 * U)]
+MENU_LIST_Q = [(None, 0.0), (2 * U, 6 * U)]
+MENU_LIST_T = [(None, 0.0), (U, 0.0), (None, 6 * U), (1.5 * U, 8 * U), (None, 12 * U)]
 
 
 def selections(n):
